@@ -235,8 +235,25 @@ def oracle(case, rec):
                     d[(ghost, f)] = v
         rec.cls('pairs-naming-unscored-features')
     R, D, L = dict(relevance), dict(redundancy), dict(relation)      # the caller's own dictionary objects
-    df = rank_features_3MR(R, D, L, strategy=strategy, alpha=alpha, beta=beta)
+    # the strategy name arrives as a run-time string (argparse / a config file), equal to but not the same object as any literal
+    strategy_arg = (strategy + ' ').strip() if (n + len(red)) % 2 else strategy
+    df = rank_features_3MR(R, D, L, strategy=strategy_arg, alpha=alpha, beta=beta)
     msg, order_idx = check_output(df, feats, rel, red, rla, strategy, alpha, beta)
+    if msg is None and case.get('again') and n >= 1:
+        # the caller edits the RESULT frame in place (drops a row, re-indexes) and asks again for the same scores with fresh copies of
+        # the dictionaries: the second answer is a complete ranking again
+        try:
+            df.drop(df.index[0], inplace=True)
+            df.set_index('Feature', inplace=True)
+        except Exception:  # noqa: BLE001
+            pass
+        df_b = rank_features_3MR(dict(R), dict(D), dict(L), strategy=(strategy + ' ').strip(), alpha=alpha, beta=beta)
+        msg_b, _ = check_output(df_b, feats, rel, red, rla, strategy, alpha, beta)
+        rec.cls('ranked-again-after-editing-the-result')
+        if msg_b is not None:
+            msg = 'second call with equal scores after the caller edited the first result frame in place: ' + msg_b
+        else:
+            df = df_b
     for round_ in range(int(case.get('again') or 0) if msg is None else 0):
         # the caller updates scores IN PLACE (same objects, same keys) and ranks again: the new scores count
         pos = {f: i for i, f in enumerate(feats)}
@@ -271,8 +288,9 @@ def oracle(case, rec):
         rec.nt(n >= 3 and differs, key=[feats, rel, sorted(red.items()), sorted(rla.items()), red_self, rla_self,
                                         strategy, alpha, beta] if n <= 6 else case)
     if msg is not None:
+        shown = df['Feature'].tolist() if 'Feature' in getattr(df, 'columns', []) else list(getattr(df, 'index', []))
         raise Violation(f'{msg}; strategy={strategy} alpha={alpha} beta={beta} features={feats} relevance={rel} '
-                        f'output={df["Feature"].tolist()}'[:1800])
+                        f'output={shown}'[:1800])
 
 
 @st.composite
